@@ -36,10 +36,10 @@ CHECKS = {}
 
 
 def reg(pid, pkg, run, race=False, shards=(1, 16), timeout=(900, 5400), overlay=None,
-        level="exploration", assumptions=(), fuzz=None, gomaxprocs=None):
+        level="exploration", assumptions=(), fuzz=None, gomaxprocs=None, crash_is_violation=False):
     CHECKS[pid] = dict(pkg=pkg, run=run, race=race, shards=shards, timeout=timeout,
                        overlay=overlay, level=level, assumptions=list(assumptions), fuzz=fuzz,
-                       gomaxprocs=gomaxprocs)
+                       gomaxprocs=gomaxprocs, crash_is_violation=crash_is_violation)
 
 
 A_MATCH = ["the reference matcher (internal/refmatch), written from README/doc/rfc.md, is the oracle",
@@ -57,8 +57,10 @@ A_CORE = ["the executable step rule (internal/sm/refstep.go), written from READM
 reg("C04", "./checks/core", "^TestC04", assumptions=A_CORE)
 reg("C05", "./checks/core", "^TestC05", assumptions=A_CORE)
 reg("C06", "./checks/core", "^TestC06", assumptions=A_CORE[2:] + ["native actions never mutate nested values in place (actions are documented as side-effect free)"])
-reg("C07", "./checks/core", "^TestC07", assumptions=["a nil *State and Execution literals with nil Events are API misuse, not generated", "panics inside the third-party YAML parser on byte-level garbage are not searched for"])
+reg("C07", "./checks/core", "^TestC07", crash_is_violation=True, assumptions=["a nil *State and Execution literals with nil Events are API misuse, not generated", "panics inside the third-party YAML parser on byte-level garbage are not searched for"])
 reg("C08", "./checks/core", "^TestC08", assumptions=A_CORE[2:] + ["the action model (internal/sm/actlang.go) says which emissions a completed action makes", "after a walk's deadline has passed a later action may complete or be cut short (both accepted)"])
+reg("C09", "./checks/core", "^TestC09", assumptions=["specifications are deterministic by construction", "the state is serialised with core.State's own JSON tags, as sio and mcrew do"])
+reg("C13", "./checks/core", "^TestC13", assumptions=["strings in YAML renderings are produced by the YAML library's own marshaller", "native actions cannot be represented as text and are not generated here"])
 reg("C18", "./checks/core", "^TestC18", assumptions=A_CORE + ["an action that returns null gets empty bindings; whether permanent bindings survive that is not judged"])
 
 
@@ -282,7 +284,20 @@ def run_check(pid, tier, replay=None):
                 if line not in known:
                     known.append(line)
         if p.returncode != 0 and not has_violation:
-            bad_shards.append((k, p.returncode, text))
+            crashed = ("fatal error:" in text or "\npanic:" in text) and "github.com/Comcast/sheens" in text
+            journals = sorted(glob.glob(os.path.join(work, "w%d" % k, "journal-%s-*.json" % pid)), key=os.path.getmtime)
+            if cfg["crash_is_violation"] and crashed and journals:
+                # the process itself died (e.g. a stack overflow): that is a
+                # violation of "never crashes the host process"; the
+                # journalled case is the replay
+                os.makedirs(os.path.join(ROOT, "replays", pid), exist_ok=True)
+                dst = os.path.join(ROOT, "replays", pid, "crash-%d-%d.json" % (int(time.time()), k))
+                shutil.copy(journals[-1], dst)
+                first = [l for l in text.splitlines() if l.startswith("fatal error:") or l.startswith("panic:")]
+                violations.append(("VIOLATION property=%s replay=%s" % (pid, dst),
+                                   "  %s: the test process died: %s" % (pid, first[0] if first else "fatal error")))
+            else:
+                bad_shards.append((k, p.returncode, text))
     subs = merge_stats([os.path.join(work, "stats.%d.jsonl" % k) for k in range(nshards)])
     # every shard must have explored what it was asked to
     short = [s["name"] for s in subs.values() if not s["replay"] and s["violations"] == 0
